@@ -202,7 +202,7 @@ theorem evictIfNeeded_noop (c : Cap) (hb : c.bytes = sumSizes c.entries) (hf : F
     · have hnil : c.entries = [] := by
         cases hc : c.entries with
         | nil => rfl
-        | cons x xs => rw [hc] at hl hne1; simp at hl hne1; omega
+        | cons x xs => rw [hc] at hl hne1; simp only [List.length_cons] at hl hne1; omega
       exact evictLoop_none _ c [] hs (by simp [hnil])
     · rw [← hb] at hm; omega
 
@@ -249,13 +249,13 @@ theorem filter_find_facts (k : Bytes) (l : List Entry) (e : Entry) (hn : (l.map 
         apply hn.1
         rw [hx, ← hak]
         exact List.mem_map_of_mem ha
-      simp [List.find?_cons, hx] at hf
+      simp [hx] at hf
       subst hf
-      simp [List.filter_cons, hx, hxs]
+      simp [hx, hxs]
       omega
-    · simp [List.find?_cons, hx] at hf
+    · simp [hx] at hf
       obtain ⟨h1, h2⟩ := ih hn.2 hf
-      simp [List.filter_cons, hx]
+      simp [hx]
       omega
 
 theorem filter_keys_nodup (k : Bytes) (l : List Entry) (hn : (l.map (·.key)).Nodup) :
@@ -296,14 +296,14 @@ theorem addSizedCore_shape (c : Cap) (k v : Bytes) (size : Int) (h : CapInv c) (
     obtain ⟨old, hfind, hmem, hkey⟩ := has_find c k hk
     obtain ⟨_, hsum⟩ := filter_find_facts k c.entries old h.keysNodup hfind
     simp only [if_true, Cap.update, hfind, Variant.current]
-    refine ⟨c.entries.filter (·.key != k), rfl, ?_, filter_keys_nodup k _ h.keysNodup, ?_, rfl, rfl⟩
+    refine ⟨c.entries.filter (·.key != k), rfl, ?_, filter_keys_nodup k _ h.keysNodup, ?_, by first | rfl | trivial, by first | rfl | trivial⟩
     · intro e; simp
     · simp only [Bool.false_eq_true, if_false, sumSizes_cons]
       rw [h.bytes]; omega
   | false =>
     obtain ⟨_, hne⟩ := has_false c k hk
     simp only [Bool.false_eq_true, if_false, Cap.addNew]
-    refine ⟨c.entries, rfl, ?_, h.keysNodup, ?_, rfl, rfl⟩
+    refine ⟨c.entries, rfl, ?_, h.keysNodup, ?_, by first | rfl | trivial, by first | rfl | trivial⟩
     · intro e
       exact ⟨fun he => ⟨he, hne e he⟩, fun he => he.1⟩
     · simp only [sumSizes_cons]
@@ -336,5 +336,383 @@ theorem CapInv.addSizedCore_evict (c : Cap) (k v : Bytes) (size : Int) (h : CapI
 theorem CapInv.addSized (c : Cap) (k v : Bytes) (size : Int) (h : CapInv c) :
     CapInv (c.addSized Variant.current k v size).1 :=
   CapInv.addSizedCore_evict c k v size h
+
+theorem addNew_eq_core (c : Cap) (k v : Bytes) (size : Int) (hk : c.has k = false) (hs : ¬ size < 0) :
+    c.addNew k v size = c.addSizedCore Variant.current k v size := by
+  unfold Cap.addSizedCore
+  rw [if_neg hs, hk]
+  simp
+
+theorem CapInv.addSizedIfMissing (c : Cap) (k v : Bytes) (size : Int) (h : CapInv c) :
+    CapInv (c.addSizedIfMissing Variant.current k v size).1 := by
+  unfold Cap.addSizedIfMissing
+  simp only [Variant.current, Bool.false_and, Bool.false_eq_true, if_false]
+  cases hk : c.has k with
+  | true => simpa using h
+  | false =>
+    by_cases hs : size < 0
+    · simpa [hs] using h
+    · simp only [Bool.false_eq_true, if_false, hs]
+      rw [addNew_eq_core c k v size hk hs]
+      exact CapInv.addSizedCore_evict c k v size h
+
+theorem CapInv.get (c : Cap) (k : Bytes) (h : CapInv c) : CapInv (c.get k).1 := by
+  unfold Cap.get
+  cases hf : c.find k with
+  | none => exact h
+  | some e =>
+    have hf' : c.entries.find? (·.key == k) = some e := hf
+    obtain ⟨hlen, hsum⟩ := filter_find_facts k c.entries e h.keysNodup hf'
+    have hek : e.key = k := by simpa using List.find?_some hf'
+    have hmem : e ∈ c.entries := List.mem_of_find?_eq_some hf'
+    refine ⟨?_, ?_, ?_, ?_⟩
+    · show ((e :: c.entries.filter (·.key != k)).map (·.key)).Nodup
+      simp only [List.map_cons, List.nodup_cons]
+      refine ⟨?_, filter_keys_nodup k _ h.keysNodup⟩
+      rw [hek]; exact not_mem_filter_keys k _
+    · intro x hx
+      have hx' : x ∈ e :: c.entries.filter (·.key != k) := hx
+      rcases List.mem_cons.mp hx' with rfl | hx'
+      · exact h.sizes _ hmem
+      · exact h.sizes x (List.mem_filter.mp hx').1
+    · show c.bytes = sumSizes (e :: c.entries.filter (·.key != k))
+      rw [sumSizes_cons, h.bytes]; omega
+    · show Fits c.cap c.maxBytes (e :: c.entries.filter (·.key != k))
+      have hf := h.fits
+      unfold Fits at hf ⊢
+      rw [sumSizes_cons, List.length_cons]
+      omega
+
+theorem CapInv.remove (c : Cap) (k : Bytes) (h : CapInv c) : CapInv (c.remove k).1 := by
+  unfold Cap.remove
+  cases hf : c.find k with
+  | none => exact h
+  | some e =>
+    have hf' : c.entries.find? (·.key == k) = some e := hf
+    obtain ⟨hlen, hsum⟩ := filter_find_facts k c.entries e h.keysNodup hf'
+    have hmem : e ∈ c.entries := List.mem_of_find?_eq_some hf'
+    have hes := h.sizes e hmem
+    refine ⟨filter_keys_nodup k _ h.keysNodup, ?_, ?_, ?_⟩
+    · intro x hx
+      have hx' : x ∈ c.entries.filter (·.key != k) := hx
+      exact h.sizes x (List.mem_filter.mp hx').1
+    · show c.bytes - e.size = sumSizes (c.entries.filter (·.key != k))
+      rw [h.bytes]; omega
+    · show Fits c.cap c.maxBytes (c.entries.filter (·.key != k))
+      have hf := h.fits
+      unfold Fits at hf ⊢
+      omega
+
+theorem CapInv.purge (c : Cap) : CapInv c.purge :=
+  ⟨by simp [Cap.purge], by simp [Cap.purge], by simp [Cap.purge], Or.inl (by simp [Cap.purge])⟩
+
+/-! ### behaviour -/
+
+theorem head_of_prefix {α : Type} (x : α) (rest p q : List α) (h : x :: rest = p ++ q) (hp : p ≠ []) :
+    ∃ p', p = x :: p' ∧ rest = p' ++ q := by
+  cases p with
+  | nil => exact absurd rfl hp
+  | cons y ys =>
+    simp only [List.cons_append, List.cons.injEq] at h
+    exact ⟨ys, by rw [h.1], h.2⟩
+
+/-- C15: a Put with a valid size makes the entry the most recently used one, with the given value and size -/
+theorem addSized_head (c : Cap) (k v : Bytes) (size : Int) (h : CapInv c) (hs : 0 ≤ size) :
+    (c.addSized Variant.current k v size).1.entries.head? = some ⟨k, v, size⟩ := by
+  show ((c.addSizedCore Variant.current k v size).evictIfNeeded).1.entries.head? = _
+  obtain ⟨rest, h1, _, _, h4, _, _⟩ := addSizedCore_shape c k v size h hs
+  obtain ⟨hsplit, _⟩ := evictIfNeeded_split _ h4
+  obtain ⟨_, hne⟩ := evictIfNeeded_fits _ h4
+  rw [h1] at hsplit
+  obtain ⟨p', hp, _⟩ := head_of_prefix _ _ _ _ hsplit (hne (by rw [h1]; simp))
+  rw [hp]; rfl
+
+/-- C15: a negative size is rejected: nothing changes, nothing is reported -/
+theorem addSized_negative (c : Cap) (k v : Bytes) (size : Int) (h : CapInv c) (hs : size < 0) :
+    c.addSized Variant.current k v size = (c, false) := by
+  unfold Cap.addSized
+  rw [addSizedCore_negative c k v size hs, evictIfNeeded_noop c h.bytes h.fits]
+  rfl
+
+/-- C15/C17: conservation: every entry resident before a write (other than the written key) is afterwards either
+    still resident, unchanged, or among the reported victims; victims are no longer resident; the evicted flag says
+    exactly whether there are victims -/
+theorem addSizedAndReturnEvicted_conservation (c : Cap) (k v : Bytes) (size : Int) (h : CapInv c) :
+    let r := c.addSizedAndReturnEvicted Variant.current k v size
+    (∀ e ∈ c.entries, e.key ≠ k → (e ∈ r.1.entries ∨ e ∈ r.2)) ∧
+    (∀ e ∈ r.2, e ∈ c.entries ∧ e.key ≠ k ∧ r.1.has e.key = false) ∧
+    ((c.addSized Variant.current k v size).2 = !r.2.isEmpty) ∧ (c.addSized Variant.current k v size).1 = r.1 := by
+  intro r
+  refine ⟨?_, ?_, rfl, rfl⟩
+  · intro e he hek
+    by_cases hs : size < 0
+    · left
+      show e ∈ ((c.addSizedCore Variant.current k v size).evictIfNeeded).1.entries
+      rw [addSizedCore_negative c k v size hs, evictIfNeeded_noop c h.bytes h.fits]
+      exact he
+    · obtain ⟨rest, h1, h2, _, h4, _, _⟩ := addSizedCore_shape c k v size h (by omega)
+      obtain ⟨hsplit, _⟩ := evictIfNeeded_split _ h4
+      have hmem : e ∈ (c.addSizedCore Variant.current k v size).entries := by
+        rw [h1]; exact List.mem_cons_of_mem _ ((h2 e).mpr ⟨he, hek⟩)
+      rw [hsplit] at hmem
+      rcases List.mem_append.mp hmem with hm | hm
+      · exact Or.inl hm
+      · exact Or.inr (List.mem_reverse.mp hm)
+  · intro e he
+    by_cases hs : size < 0
+    · have : r.2 = [] := by
+        show ((c.addSizedCore Variant.current k v size).evictIfNeeded).2 = []
+        rw [addSizedCore_negative c k v size hs, evictIfNeeded_noop c h.bytes h.fits]
+      rw [this] at he
+      simp at he
+    · obtain ⟨rest, h1, h2, h3, h4, _, _⟩ := addSizedCore_shape c k v size h (by omega)
+      obtain ⟨hsplit, _⟩ := evictIfNeeded_split _ h4
+      obtain ⟨_, hne⟩ := evictIfNeeded_fits _ h4
+      rw [h1] at hsplit
+      obtain ⟨p', hp, hrest⟩ := head_of_prefix _ _ _ _ hsplit (hne (by rw [h1]; simp))
+      have he' : e ∈ r.2.reverse := List.mem_reverse.mpr he
+      have her : e ∈ rest := by rw [hrest]; exact List.mem_append_right _ he'
+      obtain ⟨hec, hek⟩ := (h2 e).mp her
+      refine ⟨hec, hek, ?_⟩
+      show Cap.has r.1 e.key = false
+      unfold Cap.has
+      show (((c.addSizedCore Variant.current k v size).evictIfNeeded).1.entries.any (·.key == e.key)) = false
+      rw [hp]
+      rw [hrest, List.map_append, List.nodup_append] at h3
+      simp only [List.any_cons, Bool.or_eq_false_iff, List.any_eq_false]
+      refine ⟨by simpa using fun hh => hek hh.symm, ?_⟩
+      intro x hx hxe
+      have hxe' : x.key = e.key := by simpa using hxe
+      exact h3.2.2 x.key (List.mem_map_of_mem hx) e.key (List.mem_map_of_mem he') hxe'
+
+/-- C15: recency: Get moves the entry to the most-recent end of Keys and changes nothing else -/
+theorem get_keys (c : Cap) (k : Bytes) (h : CapInv c) (hk : c.has k = true) :
+    (c.get k).1.keys = (c.keys.filter (· != k)) ++ [k] := by
+  have _ := h
+  obtain ⟨e, hfind, _, hek⟩ := has_find c k hk
+  unfold Cap.get
+  rw [hfind]
+  simp only [Cap.keys, List.reverse_cons, List.map_append, List.map_cons, List.map_nil, hek,
+    List.filter_map, List.filter_reverse]
+  rfl
+
+theorem peek_has_no_effect (c : Cap) (k : Bytes) : (c.peek k).isSome = c.has k := by
+  unfold Cap.peek Cap.find Cap.has
+  rw [Bool.eq_iff_iff]
+  simp [List.find?_isSome]
+
+/-- C15: HasOrAdd on the sized cache: has ⇔ was present; inserts iff absent and size valid -/
+theorem addSizedIfMissing_flags (c : Cap) (k v : Bytes) (size : Int) (h : CapInv c) :
+    let r := c.addSizedIfMissing Variant.current k v size
+    r.2.1 = c.has k ∧ (c.has k = true → r.1 = c) ∧ (c.has k = false → 0 ≤ size → r.1.entries.head? = some ⟨k, v, size⟩) ∧
+    (c.has k = false → size < 0 → r.1 = c) := by
+  intro r
+  have hr : r = c.addSizedIfMissing Variant.current k v size := rfl
+  unfold Cap.addSizedIfMissing at hr
+  simp only [Variant.current, Bool.false_and, Bool.false_eq_true, if_false] at hr
+  cases hk : c.has k with
+  | true =>
+    rw [hk] at hr
+    simp only [if_true] at hr
+    rw [hr]; simp
+  | false =>
+    rw [hk] at hr
+    by_cases hs : size < 0
+    · simp only [Bool.false_eq_true, if_false, hs, if_true] at hr
+      rw [hr]
+      simp
+      omega
+    · simp only [Bool.false_eq_true, if_false, hs] at hr
+      rw [addNew_eq_core c k v size hk hs] at hr
+      rw [hr]
+      refine ⟨rfl, by simp, ?_, fun _ h' => absurd h' hs⟩
+      intro _ hs'
+      exact addSized_head c k v size h hs'
+
+/-! ### simple (hashicorp) LRU -/
+
+/-- simple (hashicorp) LRU -/
+structure SimpleInv (c : Simple) : Prop where
+  keysNodup : (c.entries.map (·.1)).Nodup
+  bound : c.entries.length ≤ c.cap
+
+theorem Simple.has_false (c : Simple) (k : Bytes) (h : c.has k = false) : k ∉ c.entries.map (·.1) := by
+  unfold Simple.has at h
+  simp only [List.any_eq_false] at h
+  intro hmem
+  obtain ⟨x, hx, hxk⟩ := List.mem_map.mp hmem
+  exact h x hx (by simp [hxk])
+
+theorem SimpleInv.add (c : Simple) (k v : Bytes) (h : SimpleInv c) (hc : 1 ≤ c.cap) : SimpleInv (c.add k v).1 := by
+  have _ := hc
+  unfold Simple.add
+  cases hk : c.has k with
+  | true =>
+    simp only [if_true]
+    refine ⟨?_, ?_⟩
+    · show (((k, v) :: c.entries.filter (·.1 != k)).map (·.1)).Nodup
+      simp only [List.map_cons, List.nodup_cons]
+      refine ⟨by simp, List.Nodup.sublist (List.Sublist.map _ List.filter_sublist) h.keysNodup⟩
+    · show ((k, v) :: c.entries.filter (·.1 != k)).length ≤ c.cap
+      have hlt : (c.entries.filter (·.1 != k)).length < c.entries.length := by
+        rw [List.length_filter_lt_length_iff_exists]
+        unfold Simple.has at hk
+        simp only [List.any_eq_true] at hk
+        obtain ⟨x, hx, hxk⟩ := hk
+        exact ⟨x, hx, by simpa using hxk⟩
+      have := h.bound
+      simp only [List.length_cons]
+      omega
+  | false =>
+    have hnm := Simple.has_false c k hk
+    have hnd : (((k, v) :: c.entries).map (·.1)).Nodup := by
+      simp only [List.map_cons, List.nodup_cons]
+      exact ⟨hnm, h.keysNodup⟩
+    simp only [Bool.false_eq_true, if_false]
+    split
+    · refine ⟨?_, ?_⟩
+      · show ((((k, v) :: c.entries).dropLast).map (·.1)).Nodup
+        exact List.Nodup.sublist (List.Sublist.map _ (List.dropLast_sublist _)) hnd
+      · show (((k, v) :: c.entries).dropLast).length ≤ c.cap
+        have := h.bound
+        simp only [List.length_dropLast, List.length_cons]
+        omega
+    · rename_i hle
+      refine ⟨hnd, ?_⟩
+      show ((k, v) :: c.entries).length ≤ c.cap
+      omega
+
+theorem Simple.add_head (c : Simple) (k v : Bytes) (hc : 1 ≤ c.cap) : (c.add k v).1.entries.head? = some (k, v) := by
+  unfold Simple.add
+  cases hk : c.has k with
+  | true => simp
+  | false =>
+    simp only [Bool.false_eq_true, if_false]
+    split
+    · rename_i hgt
+      cases he : c.entries with
+      | nil => rw [he] at hgt; simp at hgt; omega
+      | cons x xs => simp
+    · simp
+
+/-- evicted ⇔ the cache was full and the key new; then exactly the least recently used entry goes.
+    NOTE: `hc : 1 ≤ c.cap` is an added hypothesis (enforced by the Go constructor): for `cap = 0` the second
+    conjunct is false, see `Simple.add_evicted_cap0_counterexample`. -/
+theorem Simple.add_evicted (c : Simple) (k v : Bytes) (h : SimpleInv c) (hc : 1 ≤ c.cap) :
+    (c.add k v).2 = (!c.has k && decide (c.entries.length = c.cap)) ∧
+    ((c.add k v).2 = true → (c.add k v).1.entries = (k, v) :: c.entries.dropLast) := by
+  have hb := h.bound
+  unfold Simple.add
+  cases hk : c.has k with
+  | true => simp
+  | false =>
+    simp only [Bool.false_eq_true, if_false, Bool.not_false, Bool.true_and]
+    split
+    · rename_i hgt
+      simp only [List.length_cons] at hgt
+      refine ⟨by simp; omega, ?_⟩
+      intro _
+      show ((k, v) :: c.entries).dropLast = (k, v) :: c.entries.dropLast
+      apply List.dropLast_cons_of_ne_nil
+      intro hnil
+      rw [hnil] at hgt
+      simp at hgt
+      omega
+    · rename_i hle
+      simp only [List.length_cons] at hle
+      refine ⟨by simp; omega, ?_⟩
+      intro hf
+      simp at hf
+
+/-- the first conjunct of `Simple.add_evicted` needs no lower bound on the capacity -/
+theorem Simple.add_evicted_flag (c : Simple) (k v : Bytes) (h : SimpleInv c) :
+    (c.add k v).2 = (!c.has k && decide (c.entries.length = c.cap)) := by
+  have hb := h.bound
+  unfold Simple.add
+  cases hk : c.has k with
+  | true => simp
+  | false =>
+    simp only [Bool.false_eq_true, if_false, Bool.not_false, Bool.true_and]
+    split
+    · rename_i hgt
+      simp only [List.length_cons] at hgt
+      simp; omega
+    · rename_i hle
+      simp only [List.length_cons] at hle
+      simp; omega
+
+/-- without `1 ≤ cap` the second conjunct of `Simple.add_evicted` fails: a zero-capacity cache evicts the entry
+    it has just been given -/
+theorem Simple.add_evicted_cap0_counterexample :
+    ∃ (c : Simple) (k v : Bytes), SimpleInv c ∧ (c.add k v).2 = true ∧
+      (c.add k v).1.entries ≠ (k, v) :: c.entries.dropLast :=
+  ⟨⟨0, []⟩, [1], [2], ⟨by simp, by simp⟩, by decide, by decide⟩
+
+/-! ### wrapper and handler registry -/
+
+/-- C15: handlers: every Put, and every inserting HasOrAdd, yields exactly one invocation per registered handler,
+    with the inserted key and value; a non-inserting HasOrAdd yields none -/
+theorem put_notifies (c : Cache) (k v : Bytes) (size : Int) :
+    (c.put Variant.current k v size).2.2 = c.handlers.map (·, k, v) := by
+  unfold Cache.put
+  cases c.b <;> rfl
+
+theorem hasOrAdd_notifies (c : Cache) (k v : Bytes) (size : Int) :
+    let r := c.hasOrAdd Variant.current k v size
+    r.2.2.2 = (if r.2.2.1 then c.handlers.map (·, k, v) else []) ∧ (r.2.1 = true → r.2.2.1 = false) := by
+  intro r
+  have hr : r = c.hasOrAdd Variant.current k v size := rfl
+  unfold Cache.hasOrAdd at hr
+  cases hb : c.b with
+  | sized s =>
+    rw [hb] at hr
+    simp only [Variant.current, Bool.false_eq_true, if_false] at hr
+    cases h1 : (s.addSizedIfMissing ⟨false, false⟩ k v size).2.1 with
+    | true => rw [h1] at hr; simp only [if_true] at hr; rw [hr]; simp
+    | false =>
+      rw [h1] at hr
+      simp only [Bool.false_eq_true, if_false] at hr
+      cases h2 : (s.addSizedIfMissing ⟨false, false⟩ k v size).1.has k with
+      | true => simp only [h2, if_true] at hr; rw [hr]; simp [Cache.notify]
+      | false => simp only [h2, Bool.false_eq_true, if_false] at hr; rw [hr]; simp
+  | plain s =>
+    rw [hb] at hr
+    simp only [] at hr
+    cases h1 : (s.containsOrAdd k v).2.1 with
+    | true => rw [h1] at hr; simp only [if_true] at hr; rw [hr]; simp
+    | false => rw [h1] at hr; simp only [Bool.false_eq_true, if_false] at hr; rw [hr]; simp [Cache.notify]
+
+theorem register_nodup (c : Cache) (id : String) (h : c.handlers.Nodup) :
+    (c.register id).handlers.Nodup ∧ id ∈ (c.register id).handlers := by
+  unfold Cache.register
+  cases hc : c.handlers.contains id with
+  | true =>
+    simp only [if_true]
+    exact ⟨h, by simpa using hc⟩
+  | false =>
+    simp only [Bool.false_eq_true, if_false]
+    have hnm : id ∉ c.handlers := by
+      intro hm
+      have : c.handlers.contains id = true := by simpa using hm
+      rw [hc] at this
+      exact Bool.noConfusion this
+    refine ⟨?_, by simp⟩
+    rw [List.nodup_append]
+    refine ⟨h, by simp, ?_⟩
+    intro a ha b hb hab
+    simp only [List.mem_singleton] at hb
+    exact hnm (by rw [← hb, ← hab]; exact ha)
+
+theorem unregister_removes (c : Cache) (id : String) : id ∉ (c.unregister id).handlers := by
+  unfold Cache.unregister
+  simp
+
+/-! ### legacy defect witness -/
+
+/-- the legacy `update` evicted silently: entries vanish without being reported (breaks conservation) -/
+theorem legacy_silent_eviction_counterexample : ∃ (c : Cap) (k v : Bytes) (size : Int) (e : Entry),
+    let r := c.addSizedAndReturnEvicted Variant.legacy k v size
+    e ∈ c.entries ∧ e.key ≠ k ∧ e ∉ r.1.entries ∧ e ∉ r.2 ∧ (c.addSized Variant.legacy k v size).2 = false :=
+  ⟨⟨3, 10, [⟨[1], [], 4⟩, ⟨[2], [], 4⟩], 8⟩, [1], [], 8, ⟨[2], [], 4⟩, by decide⟩
 
 end SV.LRU
